@@ -23,9 +23,15 @@ type gtask struct {
 // reservedTask: the task (if any) that carries the id the task tree uses for its virtual root
 var reservedTask = -1
 
+// plainNames: task ids are bare decimal numbers ("1", "12", ...), so that different pairs of ids can concatenate to the same string
+var plainNames = false
+
 func tname(i int) string {
 	if i == reservedTask {
 		return "_virtual_root"
+	}
+	if plainNames {
+		return fmt.Sprint(i)
 	}
 	return fmt.Sprintf("t%d", i)
 }
@@ -178,7 +184,12 @@ func runDagValid(cfg *runCfg) {
 	try = func(g []gtask, viaUpdate bool, tag string) {
 		// the same task list again with one task named like the tree's virtual root ("_virtual_root"): the model's
 		// verdict does not depend on names, the implementation's must not either
-		if reservedTask < 0 && len(g) > 0 && (len(g) <= 3 || rng.Chance(1, 3)) {
+		if reservedTask < 0 && !plainNames && len(g) >= 10 {
+			plainNames = true
+			try(g, viaUpdate, "plain-names")
+			plainNames = false
+		}
+		if reservedTask < 0 && !plainNames && len(g) > 0 && (len(g) <= 3 || rng.Chance(1, 3)) {
 			reservedTask = g[rng.Intn(len(g))].id
 			try(g, viaUpdate, "reserved-id")
 			reservedTask = -1
@@ -187,7 +198,7 @@ func runDagValid(cfg *runCfg) {
 		id := fmt.Sprintf("dag%d", seq)
 		dag := dagOf(g, id)
 		// the input in hand, for the orchestrator, should the implementation take the process down with it
-		_ = os.WriteFile(cfg.out+".current", []byte(fmt.Sprintf("# CreateDag/UpdateDag (update=%v) of the task list below; task %d is named \"_virtual_root\" (-1: none)\n16 %s\n", viaUpdate, reservedTask, sxString(L(graphSx(g, nil), I(-1))))), 0o644)
+		_ = os.WriteFile(cfg.out+".current", []byte(fmt.Sprintf("# CreateDag/UpdateDag (update=%v) of the task list below; task %d is named \"_virtual_root\" (-1: none); bare decimal ids: %v\n16 %s\n", viaUpdate, reservedTask, plainNames, sxString(L(graphSx(g, nil), I(-1))))), 0o644)
 		var err error
 		before := len(w.Srv.Dump("dag"))
 		if viaUpdate {
